@@ -56,7 +56,7 @@ def cellOf (c : Cfg α) (D : Nat → Nat → α) (e : El α) (k q : Nat) : α :=
 
 /-- the data of an operation is the corresponding part of the intended content `D` -/
 def Agree (c : Cfg α) (D : Nat → Nat → α) : Op α → Prop
-  | .writePvp i d => ∀ q, q < d.len → d.get q = D i q
+  | .writePvp i d _ => ∀ q, q < d.len → d.get q = D i q
   | .writeSup j d => ∀ q, q < d.len → d.get q = D (c.supIdx j) q
   | .writeSig i r0 d _ => ∀ q, q < d.len → d.get q = D (c.sigIdx i) (r0 * (c.item (c.sigIdx i)).rowBytes + q)
   | _ => True
@@ -325,7 +325,7 @@ theorem inv2_putChunk (c : Cfg α) (D : Nat → Nat → α) (hwf : WF c) (s : St
     (hne : d.len ≠ 0) (hmod : d.len % (c.item k).rowBytes = 0) (hfit : r0 + d.len / (c.item k).rowBytes ≤ (c.item k).rows)
     (hag : ∀ q, q < d.len → d.get q = D k (r0 * (c.item k).rowBytes + q))
     (hfresh : freshRows (s.el k).done r0 (d.len / (c.item k).rowBytes) = true)
-    (hi1 : Inv1 c s) (hi : Inv2 c D s) : Inv2 c D (putChunk c s k r0 d) := by
+    (raw : Bool) (hi1 : Inv1 c s) (hi : Inv2 c D s) : Inv2 c D (putChunk c s k r0 d raw) := by
   have L := hi.loc k hk
   have hrb := hwf.rowPos k hk
   have hsz := hwf.sizeRows k hk
@@ -571,7 +571,7 @@ theorem flushCore_set_closed (c : Cfg α) (f : Bool) (s : State α) :
   unfold flushCore itemsPhase hdrPhase snapPhase todo
   cases s.hdrWritten <;> rfl
 
-theorem inv2_markCanReg (c : Cfg α) (D : Nat → Nat → α) (s : State α) (i : Nat) (hi : Inv2 c D s) : Inv2 c D (markCanReg c s i) := by
+theorem inv2_markCanReg (c : Cfg α) (D : Nat → Nat → α) (s : State α) (i a : Nat) (hi : Inv2 c D s) : Inv2 c D (markCanReg c s i a) := by
   unfold markCanReg
   split
   · by_cases hk : c.sigIdx i < c.n
@@ -603,14 +603,14 @@ theorem kind_sig (c : Cfg α) (hwf : WF c) (i : Nat) (h : i < c.nchan) : (c.item
 theorem inv2_step (c : Cfg α) (D : Nat → Nat → α) (hwf : WF c) (s : State α) (op : Op α) (hag : Agree c D op) (hfr : Fresh c s op)
     (hi1 : Inv1 c s) (hi : Inv2 c D s) : Inv2 c D (step c s op).1 := by
   cases op with
-  | writePvp i d =>
+  | writePvp i d a =>
     simp only [step]
     split
     · exact hi
     · rename_i hb
       simp only [pvpBad, not_or, Decidable.not_not] at hb
       exact inv2_putData c D hwf _ i d (pvpIdx_lt c i hb.2.1) (kind_pvp c hwf i hb.2.1) hb.2.2.1 hag
-        (inv1_markCanReg c s i hi1) (inv2_markCanReg c D s i hi)
+        (inv1_markCanReg c s i a hi1) (inv2_markCanReg c D s i a hi)
   | writeSup j d =>
     simp only [step]
     split
@@ -627,7 +627,7 @@ theorem inv2_step (c : Cfg α) (D : Nat → Nat → α) (hwf : WF c) (s : State 
       simp only [sigBad, not_or, Decidable.not_not] at hb
       obtain ⟨hi', _, hcl, _, hne, hmod, hfit⟩ := hb
       exact inv2_putChunk c D hwf s _ r0 d (sigIdx_lt c i hi') (kind_sig c hwf i hi') (by simpa using hcl) hne hmod (by omega)
-        hag hfresh hi1 hi
+        hag hfresh raw hi1 hi
   | flush =>
     simp only [step]
     split
@@ -662,11 +662,12 @@ theorem putData_closed (c : Cfg α) (s : State α) (k : Nat) (d : Blk α) : (put
   · split <;> rfl
   · rfl
 
-theorem markCanReg_closed (c : Cfg α) (s : State α) (i : Nat) : (markCanReg c s i).closed = s.closed := by
+theorem markCanReg_closed (c : Cfg α) (s : State α) (i a : Nat) : (markCanReg c s i a).closed = s.closed := by
   unfold markCanReg; split <;> rfl
 
-theorem putChunk_closed (c : Cfg α) (s : State α) (k r0 : Nat) (d : Blk α) : (putChunk c s k r0 d).closed = s.closed := by
-  unfold putChunk; split <;> rfl
+theorem putChunk_closed (c : Cfg α) (s : State α) (k r0 : Nat) (d : Blk α) (raw : Bool) : (putChunk c s k r0 d raw).closed = s.closed := by
+  unfold putChunk
+  cases c.inMem <;> rfl
 
 theorem flushCore_closed (c : Cfg α) (f : Bool) (s : State α) : (flushCore c f s).closed = s.closed := by
   unfold flushCore itemsPhase hdrPhase snapPhase
@@ -677,7 +678,7 @@ theorem closedOk_step (c : Cfg α) (s : State α) (op : Op α) (h : ClosedOk c s
   · rw [step_closed_state c s hc op]; exact h
   · have hc' : s.closed = false := by simpa using hc
     cases op with
-    | writePvp i d =>
+    | writePvp i d a =>
       intro hcl
       simp only [step] at hcl
       split at hcl
